@@ -326,6 +326,7 @@ func RunBatcherV2(t *testing.T, sc *Scenario, out io.Writer) {
 		lg := NewLogger(out, start)
 		currentLogger.Store(lg)
 		sc.WriteHeader(lg.w)
+		lg.w.Flush() // the scenario is on disk before the code under test runs: a crash leaves a replayable file
 		r := &v2run{sc: sc, log: lg, objs: map[int64]b2.Operation{}}
 		r.ctx, r.cancel = context.WithCancel(context.Background())
 		r.lim = &fakeLimiter2{log: lg, busy: sc.BusyCap}
